@@ -3,8 +3,70 @@ import ir
 from infra import Report
 from rules_spec import run_units
 
-UNITS = ["RelativeStrengthIndex", "FastStochastic", "SlowStochastic", "PercentagePriceOscillator", "CommodityChannelIndex", "OnBalanceVolume"]
+UNITS = ["RelativeStrengthIndex", "FastStochastic", "SlowStochastic", "PercentagePriceOscillator", "CommodityChannelIndex", "OnBalanceVolume",
+         "RateOfChange", "MoneyFlowIndex"]
 RULE = {"ctor": "O1", "output": "O2", "post-state": "O2", "feed": "O3", "feed-count": "O3", "feed-extra": "O3"}
+
+
+def er_facts(F, S):
+    """EfficiencyRatio: |x_t - x_{t-n}| / sum |dx| -- the parts visible without ring semantics"""
+    import symex
+    import typestate
+    from norm import Normalizer, equal
+    from terms import cu, cf, mk_gamma, show, subterms
+    fn = F.method("EfficiencyRatio", "next", trait="Next", next_input="f64")
+    if fn is None:
+        S.bad("O4", "anchor", "EfficiencyRatio", "EfficiencyRatio::next(f64) not found")
+        return
+    tss, classes = typestate.all_structs(F)
+    ts = tss["EfficiencyRatio"]
+    try:
+        r = symex.evaluate(F, fn, canon=True)
+    except symex.Unsupported as e:
+        S.bad("O4", "unrecognised", fn.label, "UNRECOGNISED idiom: %s" % e)
+        return
+    if not (ts.buffers and ts.cursors and ts.counters):
+        S.bad("O4", "state-shape", "EfficiencyRatio", "EfficiencyRatio has no ring buffer / cursor / counter any more")
+        return
+    buf, cur = list(ts.buffers)[0], list(ts.cursors)[0]
+    cnt, (pf, _) = list(ts.counters.items())[0]
+    x = ("arg", "a0")
+    pb = ("pre", "self." + buf)
+    E_ = ("select", pb, ("pre", "self." + cur))
+    first = mk_gamma(("<=", ("pre", "self." + pf), ("pre", "self." + cnt)), E_, ("select", pb, cu(0)))
+    ret = r["ret"]
+    ok_shape = isinstance(ret, tuple) and ret[0] == "/"
+    if ok_shape:
+        okn, cx = equal(ret[1], ("abs", ("-", first, x)))
+        if okn:
+            S.ok("O4", "ER numerator = |reference - x|, reference = the slot about to be overwritten once the window is full (slot 0 during warm-up)")
+        else:
+            S.bad("O4", "er-numerator", fn.label, "%s: numerator is %s; documented |x_t - x_{t-n}| (reference %s)" % (fn.label, show(ret[1])[:140], show(first)[:100]), "%s:%s" % (fn.span["file"], fn.span["line"]))
+        den = ret[2]
+        ex = r["exec"]
+        layers = []
+        d = den
+        while isinstance(d, tuple) and d[0] == "accum":
+            layers.append(d)
+            d = d[1]
+        good = d == cf(0.0) and len(layers) >= 1
+        post_b = r["heap"].get("self." + buf)
+        for lay in layers:
+            inc = lay[2]
+            if not (isinstance(inc, tuple) and inc[0] == "abs" and isinstance(inc[1], tuple) and inc[1][0] == "-"):
+                good = False
+                continue
+            sides = inc[1][1:]
+            if not any(isinstance(s_, tuple) and s_[0] == "select" and s_[1] == post_b for s_ in sides):
+                good = False
+            if not any(isinstance(s_, tuple) and s_[0] == "lv" for s_ in sides):
+                good = False
+        if good:
+            S.ok("O4", "ER denominator = sum over the window (%d slice loop(s)) of |previous - element|, starting from 0" % len(layers))
+        else:
+            S.bad("O4", "er-denominator", fn.label, "%s: denominator %s is not a sum of absolute successive differences over the window" % (fn.label, show(den)[:140]), "%s:%s" % (fn.span["file"], fn.span["line"]))
+    else:
+        S.bad("O4", "er-shape", fn.label, "%s does not return a quotient" % fn.label)
 
 
 def run(tier, repo=None, tag="repo"):
@@ -12,14 +74,18 @@ def run(tier, repo=None, tag="repo"):
     rep.rule("O1", "constructor wiring of each oscillator equals the documented construction", 15)
     rep.rule("O2", "output term and state post-terms equal the documented formula (all gamma outcomes, real-arithmetic normal form)", 14)
     rep.rule("O3", "each component is stepped once per call with the documented series (bar-typed calls are followed through the resolved callee's delegation)", 15)
+    rep.rule("O4", "EfficiencyRatio: numerator |reference - x| with the documented reference selection; denominator a sum of absolute successive differences over the window", 2)
     rep.rule("O0", "state shape / recognised idioms", 0)
     configs = ["default"] + (["release"] if tier == "thorough" else [])
     for cfg in configs:
         F = ir.load(cfg, repo, tag)
-        run_units("C03", UNITS, None, rep, F, lambda k: RULE.get(k, "O0"))
+        S_ = run_units("C03", UNITS, None, rep, F, lambda k: RULE.get(k, "O0"))
+        er_facts(F, S_)
     rep.configs = configs
-    rep.explanation = ("step-function match for RSI, FastStochastic, SlowStochastic, PPO, CCI and OBV against the documented formulas; NOT decided: "
-                       "RateOfChange, EfficiencyRatio, MoneyFlowIndex window semantics (ring contents), tolerances")
+    rep.explanation = ("step-function match for RSI, FastStochastic, SlowStochastic, PPO, CCI and OBV against the documented formulas; for RateOfChange and "
+                       "MoneyFlowIndex the complete step function *given the ring reads* (which slot is read, what is stored, how totals are adjusted, warm-up "
+                       "selection, first output) and for EfficiencyRatio the numerator/denominator shape. NOT decided: that the slot read is x_{t-n} / the popped "
+                       "flow is the one added n steps earlier (ring semantics: necessary structure is C17/C12), tolerances")
     rep.assumptions = ["real-arithmetic equality; components satisfy their own specs (modular)",
-                       "RateOfChange / EfficiencyRatio / MoneyFlowIndex formulas refer to ring-buffer contents and are not decided by this check"]
+                       "ring semantics (slot i holds the input fed i steps ago) is not decided here; its structural preconditions are C12 (cursor typestate) and C17 (cyclic overwrite)"]
     return rep
